@@ -284,11 +284,29 @@ def run_case(n_dec, cfg_idx, oplist):
                 traffic.feed(fresh, c)
             except Exception:
                 pass
+        # ... and one that saw only the LATEST claim of every address (what a source is, is decided by its most recent claim)
+        fresh2 = NMEA2000Decoder(**copy.deepcopy(CONFIGS[cfg_idx[di]]))
+        latest = {}
+        for c in W.claims[di]:
+            latest[c["src"]] = c
+        for c in W.claims[di]:
+            if latest.get(c["src"]) is c:
+                try:
+                    traffic.feed(fresh2, c)
+                except Exception:
+                    pass
         got = W.probe(dec, W.last_seq[di], W.rejected_seq[di])
         exp = W.probe(fresh, W.last_seq[di], W.rejected_seq[di])
-        for name, g, e in zip(("single", "multidef-65285", "multidef-65286", "multidef-fast-130842", "multidef-fast-130850", "multidef-fast-130820", "fast"), got, exp):
+        exp2 = W.probe(fresh2, W.last_seq[di], W.rejected_seq[di])
+        names = ("single", "multidef-65285", "multidef-65286", "multidef-fast-130842", "multidef-fast-130850", "multidef-fast-130820", "fast")
+        for name, g, e in zip(names, got, exp):
             if g != e:
                 out.append((f"C16|probe-{name}", f"decoder {di} (config {CONFIGS[cfg_idx[di]]}): {name} probe after the history = {str(g)[:120]}, on a fresh decoder = {str(e)[:120]}", case))
+        if not out:
+            for name, g, e in zip(names, got, exp2):
+                if g != e:
+                    out.append((f"C16|probe-{name}|latest-claims-only", f"decoder {di} (config {CONFIGS[cfg_idx[di]]}): {name} probe after the history = {str(g)[:160]}, on a fresh "
+                                f"decoder that was given only the latest claim of every address = {str(e)[:160]}", case))
     if W.owned_problem:
         out.append(("C16|caller-arguments-changed", W.owned_problem, case))
     if repr(inspect.signature(NMEA2000Decoder.__init__)) != defaults_before:
